@@ -106,5 +106,10 @@ P12Help(c, useLong, obs) ==
   /\ MustAppear(c, useLong) \subseteq PresentPairs(obs)
   /\ MustNotAppear(c, useLong) \cap PresentToks(obs) = {}
   /\ \A p \in PresentPairs(obs) : p.sec \in {"Arguments", "Options", "Commands"} => p.tok \notin NotListed(c, useLong)
+\* the generated `help` subcommand mirrors the command tree (names and hiddenness only): the mirror of level c lists
+\* c's visible subcommands and never names a hidden one
+MirrorMust(c) == {[sec |-> "Commands", tok |-> c.subs[i].name] : i \in {j \in 1..Len(c.subs) : ~c.subs[j].hide}}
+MirrorNot(c) == {c.subs[i].name : i \in {j \in 1..Len(c.subs) : c.subs[j].hide}}
+P12Mirror(c, obs) == ~obs.panicked /\ MirrorMust(c) \subseteq PresentPairs(obs) /\ MirrorNot(c) \cap PresentToks(obs) = {}
 P12Usage(c, obs) == ~obs.panicked /\ UsageMustNot(c) \cap PresentToks(obs) = {}
 =============================================================================
